@@ -128,6 +128,7 @@ class Explorer(object):
                 self.assigned_scalars.add(self.scalars[t['d']])
         self.segments = []
         self.notes = []
+        self.helper_cache = {}
 
     # ---- positions -----------------------------------------------------------------------------------
     def cursor_of(self, e):
@@ -348,6 +349,15 @@ class Explorer(object):
             val = self.ev(e['t'] if c else e['e'], st, subst, loadpos)
             if val is None:
                 return None
+        elif k == 'call' and callee_name(e) in self.u.functions and self.u.functions[callee_name(e)].static and \
+                callee_name(e) != self.fn.name:
+            # a static helper applied to values: evaluated from its own AST (integer arguments only, no memory)
+            args = [self.ev(a, st, subst, loadpos) for a in e['args']]
+            if any(a is None for a in args):
+                return None
+            val = self.helper_value(callee_name(e), tuple(args))
+            if val is None:
+                return None
         elif k == 'call' and callee_name(e) in ('tolower', 'toupper') and len(e['args']) == 1:
             x = self.ev(e['args'][0], st, subst, loadpos)
             if x is None or not (0 <= x <= 255):
@@ -371,6 +381,23 @@ class Explorer(object):
                 if not t.get('unsigned') and val >= (1 << (bits - 1)):
                     val -= (1 << bits)
         return val
+
+    def helper_value(self, name, args):
+        key = (name, args)
+        if key in self.helper_cache:
+            return self.helper_cache[key]
+        from .shape import Interp, Heap, ShapeViolation
+        h = self.u.functions[name]
+        try:
+            v = Interp({'unit': self.u}, Heap()).run(self.u, h, list(args))
+        except (AnalysisBroken, ShapeViolation):
+            v = None
+        if isinstance(v, bool):
+            v = int(v)
+        if not isinstance(v, int):
+            v = None
+        self.helper_cache[key] = v
+        return v
 
     def value_of(self, e, st, loadpos):
         """Abstract scalar value of an rvalue: ('k', v) | ('in', root, axis) | ('d', k) | None."""
